@@ -330,3 +330,63 @@ Definition step (st : state) (o : op) : state * option exn :=
       | (s, Raise e) => (mkState s (st_pool st) (st_store st), Some e)
       end
   end.
+
+(** ---- linear edit histories and their specification: Python list surgery ---- *)
+Inductive edit :=
+| EAppend (o : operand) | EInsert (k : Z) (o : operand) | EDelete (k : Z) | ESet (k : Z) (it : item).
+
+Definition apply_edit (s : hs) (A : arr) (e : edit) : hs * res arr :=
+  match e with
+  | EAppend o => append s A o
+  | EInsert k o => insert s A k o
+  | EDelete k => delete s A k
+  | ESet k it => setitem s A k (OItem it)
+  end.
+(** an edit that raises leaves the program with the array it had *)
+Definition next_arr (A : arr) (r : res arr) : arr := match r with Ok R => R | Raise _ => A end.
+Fixpoint run_edits (s : hs) (A : arr) (es : list edit) : hs * arr :=
+  match es with
+  | [] => (s, A)
+  | e :: r => let (s1, res) := apply_edit s A e in run_edits s1 (next_arr A res) r
+  end.
+
+(** the same edits on a Python list of (value, uncertainty) pairs; None = the edit is rejected *)
+Inductive ledit :=
+| LAppend (v : list (Q * Q))             (* l + v *)
+| LInsert (k : Z) (v : list (Q * Q))     (* l[k:k] = v *)
+| LDelete (k : Z)                        (* del l[k] *)
+| LSetNum (k : Z) (x : Q)                (* l[k] = (x, l[k][1]) : the uncertainty is kept *)
+| LSet (k : Z) (p : Q * Q)               (* l[k] = p *)
+| LNop.                                  (* malformed operand *)
+Definition list_edit (l : list (Q * Q)) (e : ledit) : option (list (Q * Q)) :=
+  match e with
+  | LAppend v => Some (l ++ v)
+  | LInsert k v => option_map (fun i => firstn i l ++ v ++ skipn i l) (norm_index (length l) k true)
+  | LDelete k => option_map (fun i => remove_nth i l) (norm_index (length l) k false)
+  | LSetNum k x => option_map (fun i => update i (x, snd (nth i l (0, 0))) l) (norm_index (length l) k false)
+  | LSet k p => option_map (fun i => update i p l) (norm_index (length l) k false)
+  | LNop => None
+  end.
+Definition list_step (l : list (Q * Q)) (e : ledit) : list (Q * Q) :=
+  match list_edit l e with Some l' => l' | None => l end.
+Definition list_run (l : list (Q * Q)) (es : list ledit) : list (Q * Q) := fold_left list_step es l.
+
+Definition item_wf (it : item) : bool :=
+  match it with IBad _ => false | IPair _ e => Qle_bool 0 e | _ => true end.
+Definition operand_wf (o : operand) : bool :=
+  match o with OItem it => item_wf it | OList l => forallb item_wf l | OArr _ => true end.
+
+(** an edit as a list edit: measurement operands contribute the (value, error) they have at that time *)
+Definition abstract_edit (h : heap) (e : edit) : ledit :=
+  match e with
+  | EAppend o => if operand_wf o then LAppend (coerce h o) else LNop
+  | EInsert k o => if operand_wf o then LInsert k (coerce h o) else LNop
+  | EDelete k => LDelete k
+  | ESet k (INum x) => LSetNum k x
+  | ESet k it => if item_wf it then LSet k (coerce_item h it) else LNop
+  end.
+Fixpoint trace (s : hs) (A : arr) (es : list edit) : list ledit :=
+  match es with
+  | [] => []
+  | e :: r => abstract_edit (fst s) e :: (let (s1, res) := apply_edit s A e in trace s1 (next_arr A res) r)
+  end.
